@@ -97,11 +97,19 @@ def run(run, binfo):
     for _ in range(nsets):
         rs = {}
         for j in range(rng.randint(0, 6)):
-            rs['n%d' % j] = rng.choice(['', '@', expr_text(rng, rng.randint(1, 8)), list_rule(rng)])
+            nm = rng.choice(['n%d' % j, 'n%d' % j, 'identity:change_password', 'identity:validate_token', 'auth_token',
+                             'rotate_secret2', 'os_compute_api:os-admin-password', 'private_key', 'n%d:PASSWORD' % j])
+            rs[nm] = rng.choice(['', '@', expr_text(rng, rng.randint(1, 8)), list_rule(rng)])
         rules = policy.Rules.from_dict(rs)
         text = str(rules)
-        back = policy.Rules.load(text)
         run.evaluations += 1
+        try:
+            back = policy.Rules.load(text)
+        except Exception as ex:   # noqa
+            run.violation('ruleset-roundtrip', 'the dump of the rule set %r does not load: %s' % (rs, type(ex).__name__),
+                          {'kind': 'failing-input', 'suite': 'spec-c15', 'input': {'rules': rs},
+                           'expected': 'loads', 'observed': type(ex).__name__})
+            continue
         p0 = {k: str(c) for k, c in rules.items()}
         p1 = {k: str(c) for k, c in back.items()}
         # leaves outside the text language excluded as above
